@@ -473,6 +473,9 @@ def gen_random(seed, world, tier):
                   "client": client, "cfgname": cname}
             if R.random() < 0.2:
                 st["args"] = _with_layout(R, st["args"])
+            elif R.random() < 0.3 and isinstance(st["args"][0], dict) and not st["args"][0].get("storage"):
+                # the client reuses one buffer for its matrices (refilled in place between calls)
+                st["args"] = [dict(st["args"][0], buf=f"A{oi}")] + st["args"][1:]
         if R.random() < 0.35:
             st["clock"] = R.choice(CLOCK_SCRIPTS[1:])
         if R.random() < 0.15 and st.get("fn") not in _inplace():
@@ -513,6 +516,22 @@ def gen_jobs(base_seed, tier, budget=None):
             for w in exh_worlds:
                 jobs.append({"seed": base_seed * 10 ** 6 + 700000 + sid,
                              "trace": gen_recovery(base_seed * 10 ** 6 + 700000 + sid, w, cfgname, p1, p2, picks)})
+            sid += 1
+    # buffer reuse: the same ndarray object, refilled in place with another problem of the same
+    # shape, handed to the same solver object (defeats caches keyed by object identity)
+    for cfgname, cls_, cfg_, meth_, pool_ in CONFIGS:
+        for pi in (1, 2):
+            for w in exh_worlds:
+                seed = base_seed * 10 ** 6 + 600000 + sid
+                a1 = [dict(pool_[pi][0], buf="B")] + pool_[pi][1:] if isinstance(pool_[pi][0], dict) and not pool_[pi][0].get("storage") else pool_[pi]
+                tw = _twin(sub_rng(seed, "buf"), pool_[pi])
+                a2 = [dict(tw[0], buf="B")] + tw[1:] if isinstance(tw[0], dict) and not tw[0].get("storage") else tw
+                steps = [{"k": "rng", "op": "seed", "v": 77}, {"k": "new", "obj": "s0", "cls": cls_, "cfg": cfg_},
+                         {"k": "call", "obj": "s0", "meth": meth_, "args": a1, "client": 0, "cfgname": cfgname},
+                         {"k": "call", "obj": "s0", "meth": meth_, "args": a2, "client": 0, "cfgname": cfgname},
+                         {"k": "call", "obj": "s0", "meth": meth_, "args": a1, "client": 0, "cfgname": cfgname}]
+                jobs.append({"seed": seed, "trace": {"prop": PROP, "seed": seed, "world": w, "mode": "buffer",
+                                                     "cfgname": cfgname, "seq": [pi, "twin", pi], "steps": steps}})
             sid += 1
     n_rand = budget if budget is not None else (400 if tier == "quick" else 12000)
     for i in range(n_rand):
@@ -675,7 +694,7 @@ def violation_target(trace, v):
 
 
 def signature(trace, result):
-    if trace.get("mode") in ("exhaustive", "recovery"):
+    if trace.get("mode") in ("exhaustive", "recovery", "buffer"):
         return f"{trace['mode']}:{trace['cfgname']}:{trace['seq']}:{trace['world']}"
     sig = []
     for s in trace["steps"]:
